@@ -2,6 +2,7 @@ import IstioModel.Common.Wire
 import IstioModel.C13.Model
 import IstioModel.C13.Conc
 import IstioModel.C13.Cla
+import IstioModel.C13.Net
 
 /-! Line-protocol driver for C13 (stream `index`). See harness/c13. -/
 namespace IstioModel.C13
@@ -259,35 +260,57 @@ def stepSched (d : DState) (toks : List String) : DState × String :=
         | _ => "stuck"
       (d, schedOut d before head)
 
-/-! ### Stream `cla`: index operations plus membership queries -/
+/-! ### Stream `cla`: index operations (through the DiscoveryServer entry points) plus pushes -/
 
-def showLbEp (e : Ep) : String :=
-  let a := e.addrs.headD ""
-  let addr := if e.eport = 0 then "pipe:" ++ enc a else enc a ++ ":" ++ toString e.eport
-  let h := if (e.labels.lookup drainingLabel).getD "" != "" then 3 else e.health
-  addr ++ "/h" ++ toString h ++ "/w" ++ toString (lbWeight e)
+def showLbEp (e : LbEp) : String :=
+  let addr := if e.pipe then "pipe:" ++ enc e.host else enc e.host ++ ":" ++ toString e.port
+  addr ++ "/h" ++ toString e.health ++ "/w" ++ toString e.weight
 
-def showGroup (g : Group) : String :=
-  enc g.loc ++ "{w=" ++ toString g.weight ++ ";p=0;" ++ ",".intercalate (g.eps.map showLbEp) ++ "}"
+/-- Endpoints inside a locality are printed sorted: their order carries no meaning (a report that
+    only reorders endpoints is `NoPush`, so the served order may be an older one). -/
+def showGroup (g : OutGroup) : String :=
+  enc g.loc ++ "{w=" ++ toString g.weight ++ ";p=0;" ++
+    ",".intercalate ((g.eps.map showLbEp).mergeSort (fun a b => !(b < a))) ++ "}"
 
-def showCLA : Option (List Group) → String
+def showCLA : Option (List OutGroup) → String
   | none => "crash"
   | some [] => "cla -"
   | some gs => "cla " ++ " ".intercalate (gs.map showGroup)
 
-/-- `cla <svc> <ns> <port> <subset> <proxy> <unh>  <portName> <subsetLabels> <view> <proxyCluster>
-    <clusterLocal> <nodeLocal> <proxyNode> <unhealthyOk> <persistent>`: the first six tokens name
-    the real objects (used by the harness), the rest is the builder configuration they amount to. -/
+def decGw (t : String) : Option Gw :=
+  match t.splitOn "|" with
+  | [n, c, a, p] => some { net := dec n, cluster := dec c, addr := dec a, port := decNat p }
+  | _ => none
+
+def decGws (t : String) : List Gw :=
+  if t == "-" then [] else (t.splitOn ";").filterMap decGw
+
+/-- One watched cluster of a `push` line:
+    `svc|ns|port|subset|portName|subsetLabels|clusterLocal|nodeLocal|unhealthyOk|persistent`
+    (the first four fields name the real cluster; `portName = !` = the service has no such port). -/
+def claOfQuery (d : DState) (proxy : Builder) (gws : List Gw) (q : String) : String :=
+  match q.splitOn "|" with
+  | [svc, ns, _, _, portName, sub, cl, nl, uok, pers] =>
+    if portName == "!" then "cla -" else
+    let b : Builder := { proxy with
+      portName := dec portName, subset := decLabels sub, clusterLocal := tokBool cl,
+      nodeLocal := tokBool nl, unhealthyOk := tokBool uok, persistent := tokBool pers }
+    showCLA (serveCLA b gws (d.idx (dec svc, dec ns)))
+  | _ => "bad-query"
+
+/-- `push <proxy> <mode> <view> <proxyCluster> <proxyNode> <proxyNetwork> <gateways> <query>...`:
+    what the proxy holds for every watched cluster after the push - by the property, the assignment
+    of the current index. -/
 def stepCla (d : DState) (toks : List String) : DState × String :=
   match toks with
-  | ["cla", svc, ns, _, _, _, _, portName, sub, view, pc, cl, nl, pn, uok, pers] =>
-    if portName == "!" then (d, "cla -") else
-    let b : Builder := {
-      portName := dec portName, subset := decLabels sub,
+  | "push" :: _ :: _ :: view :: pc :: pn :: pnet :: gws :: qs =>
+    let proxy : Builder := {
       view := if view == "-" then none else some (decList view),
-      proxyCluster := dec pc, clusterLocal := tokBool cl, nodeLocal := tokBool nl,
-      proxyNode := dec pn, unhealthyOk := tokBool uok, persistent := tokBool pers }
-    (d, showCLA (buildCLA b (d.idx (dec svc, dec ns))))
+      proxyCluster := dec pc, proxyNode := dec pn, proxyNetwork := dec pnet }
+    let g := decGws gws
+    let outs := qs.map (claOfQuery d proxy g)
+    -- a panic while building any watched cluster aborts the whole push
+    if outs.contains "crash" then (d, "crash") else (d, "served " ++ " || ".intercalate outs)
   | _ =>
     match decOp toks with
     | none => (d, "bad-op")
